@@ -20,9 +20,10 @@ What is proved here:
 * `one_per_source`    — every good loop shape returns one chart per source map;
 * `table_*`           — by `decide` over the generated table: every entry passes `staticOk` (hits←hits, holds←holds,
   bpms←bpms with the identity column mapping, the declared target class, svs for osu↔Quaver), metadata provenance,
-  loop shapes, shift parameters, no label-aligned entry (D27 repaired) and the `[]` defaults (exactly where finding
-  D08 sits);
-* counterexample theorems for D08, D27 / D11 (the label-aligned assignment, on a hand-written entry), D13 (shape).
+  loop shapes, shift parameters, no label-aligned entry (D27 repaired), no NaN among the defaults `empty` writes
+  (D08 repaired), the `[]` defaults;
+* counterexample theorems for D08 (a hand-written pre-fix `empty`), D27 / D11 (the label-aligned assignment, on a
+  hand-written entry), D13 (shape).
 `untouched` is not a theorem: the model is functional; aliasing is runtime behaviour checked by (S) on every case.
 -/
 import Reamber.Lemmas.Convert
@@ -90,8 +91,8 @@ theorem valAfter_noNan (src : Frame) (hsrc : ∀ p ∈ src.cols, ∀ x ∈ p.2, 
     · exact h0
 
 /-- **Only the target's fields, no missing value** (`fields_complete` at the level of one cast): positional
-entries, no NaN in the source, no NaN among the declared defaults (i.e. no `[]` default — D08 is exactly the
-failure of this hypothesis) ⇒ the result has exactly the declared column names and contains no NaN. -/
+entries, no NaN in the source, no NaN among the defaults (`table_defaults_no_nan`: true of every generated list
+class now that `empty` writes one list per row for a `[]` default; see `cast_fields_generated`) ⇒ the result has exactly the declared column names and contains no NaN. -/
 theorem cast_fields (lists : List (String × Frame)) (src : Frame) (hwf : src.WF)
     (schema : List (String × Cell)) (mapping : List (String × MapFrom)) (hp : PosOnly src mapping)
     (hsrc : ∀ p ∈ src.cols, ∀ x ∈ p.2, x ≠ Cell.nan) (hd : ∀ p ∈ schema, p.2 ≠ Cell.nan) :
@@ -258,7 +259,8 @@ theorem table_shift_params : (converters.filter (·.shiftParam.isSome)).map (fun
 is repaired: a Series-valued entry reappearing anywhere breaks this obligation) -/
 theorem table_labels_free : ∀ c ∈ converters, labelsFree c = true := by decide +kernel
 
-/-- a `[]` default (→ NaN, finding D08) is declared exactly by the list classes the five converters into Quaver build -/
+/-- a `[]` default (one fresh list per row; NaN before D08 was repaired) is declared exactly by the list classes the
+five converters into Quaver build -/
 theorem table_list_defaults : ∀ c ∈ converters, tgtHasListDefault tables c = (c.tgtGame == "qua") := by decide +kernel
 
 /-! ## counterexamples: where the hypotheses fail, the model (= the code) breaks the specification -/
@@ -280,10 +282,23 @@ def verdictOf (name : String) (src : Src) (k : Int) : Option Verdict :=
 example : verdictOf "BMSToSM.convert" ⟨[], [exBmsMap [0, 1]]⟩ 0 = some ⟨true, true, true, true, true⟩ := by
   decide +kernel
 
-/-- **D08** (open): every conversion into Quaver leaves `keysounds` NaN — the `fields` clause fails, everything
-else holds.  The hypothesis `hd` of `cast_fields` (no `[]` default) is what fails. -/
+/-- `TimedList.empty` as it was before D08 was repaired, written out by hand: the one-row default frame replicated —
+a `[]` default is an *empty* Series there, so the row holds NaN -/
+def emptyPreFix (props : List (String × Dflt)) (n : Nat) : Frame :=
+  ⟨rangeIdx n, props.map fun p => (p.1, List.replicate n (match p.2 with | .scalar c => c | .emptyList => Cell.nan))⟩
+
+/-- **D08** (repaired): for the columns of a Quaver hit list (hand-written: `column=0, offset=0.0, keysounds=[]`)
+the pre-fix `empty` holds NaN `keysounds` — the `fields` clause of every conversion into Quaver failed; the
+repaired `empty` holds one list per row and no NaN. -/
 theorem d08_counterexample :
-    verdictOf "BMSToQua.convert" ⟨[], [exBmsMap [0, 1]]⟩ 0 = some ⟨true, true, true, false, true⟩ := by
+    let props : List (String × Dflt) := [("column", .scalar (.num 0)), ("offset", .scalar (.num 0)), ("keysounds", .emptyList)]
+    noNan (emptyPreFix props 2) = false ∧
+    noNan (empty (props.map fun p => (p.1, defaultCell p.2)) 2) = true := by decide +kernel
+
+/-- all clauses hold for a BMS chart converted into Quaver (the `fields` clause failed here before D08 was repaired) -/
+theorem d08_repaired_ok :
+    verdictOf "BMSToQua.convert" ⟨[], [exBmsMap [0, 1]]⟩ 0 = some ⟨true, true, true, true, true⟩ ∧
+    verdictOf "BMSToQua.convert" ⟨[], [exBmsMap [5, 2]]⟩ 0 = some ⟨true, true, true, true, true⟩ := by
   decide +kernel
 
 /-- `BMSToOsu` as it was before D27 was repaired, written out by hand (not taken from the generated table):
@@ -352,6 +367,21 @@ theorem d12_static_counterexample :
     let c' := { c with casts := c.casts.map fun cc => if cc.tgtAttr == "svs" then { cc with tgtAttr := "sv" } else cc }
     staticOk tables c' = false := by
   decide +kernel
+
+/-- **No default is a missing value** (D08 repaired): what `empty` writes for any declared default of any
+generated list class is not NaN. -/
+theorem table_defaults_no_nan : ∀ lc ∈ listClasses, ∀ p ∈ schemaOf lc, p.2 ≠ Cell.nan := by decide +kernel
+
+/-- `cast_fields` for every generated list class — Quaver included — with no hypothesis about defaults -/
+theorem cast_fields_generated (lc : ListClass) (hlc : lc ∈ listClasses) (lists : List (String × Frame)) (src : Frame)
+    (hwf : src.WF) (mapping : List (String × MapFrom)) (hp : PosOnly src mapping)
+    (hsrc : ∀ p ∈ src.cols, ∀ x ∈ p.2, x ≠ Cell.nan) :
+    ∃ out, cast lists src (schemaOf lc) mapping = .ok out ∧ out.names = lc.props.map (·.1) ∧ noNan out = true ∧
+      out.index = rangeIdx src.nrows := by
+  obtain ⟨out, h1, h2, h3, h4⟩ := cast_fields lists src hwf (schemaOf lc) mapping hp hsrc (table_defaults_no_nan lc hlc)
+  refine ⟨out, h1, ?_, h3, h4⟩
+  rw [h2, schemaOf, List.map_map]
+  rfl
 
 /-! ## one pass of a converter body preserves the content -/
 
